@@ -75,8 +75,7 @@ OK(p, e) ==
                /\ e.len = ALen(NewPairs(p, e))
          [] e.op = "fromitems" -> KV(e.range) = ARange(NewPairs(p, e)) /\ e.len = ALen(NewPairs(p, e))
          [] e.op = "derive" ->                                          \* TransformValues / AssertValues / ToMapRecursive: derived, source untouched
-               /\ ~p.nil
-               /\ KV(e.transformed) = LTransform(p.kv, "!")              \* same keys, same order, mapped values
+               /\ KV(e.transformed) = LTransform(p.kv, "!")              \* same keys, same order, mapped values (a nil map: none)
                /\ KV(e.asserted) = p.kv /\ e.assertok                   \* all values assertable: same map
                /\ ~e.assertbadok                                        \* one value not assertable: an error, not a partial map
                /\ AsSet(e.tomaprec) = AsSet([i \in 1..Len(p.kv) |-> <<p.kv[i].k, p.kv[i].v>>])
